@@ -179,6 +179,20 @@ func (m *memdbManager) Location() string {
 	return "in-memory"
 }
 
+// batchWriter reads from the database and collects writes into a batch
+type batchWriter struct {
+	LevelDBLikeRO
+	batch *leveldb.Batch
+}
+
+func (bw *batchWriter) Put(key []byte, value []byte, _ *opt.WriteOptions) error {
+	bw.batch.Put(key, value)
+	return nil
+}
+func newBatchWriter(ldb *leveldb.DB, batch *leveldb.Batch) DB {
+	return enableDelete(&levelDBWrapper{db: &batchWriter{LevelDBLikeRO: ldb, batch: batch}})
+}
+
 type rollbackCache struct {
 	frontier types.HashHeight
 	raw      db
@@ -362,13 +376,14 @@ func (m *ldbManager) Add(transaction Transaction) error {
 	frontierIdentifier := GetFrontierIdentifier(NewLevelDBWrapper(m.ldb).Subset(frontierByte))
 
 	if previous == frontierIdentifier {
-		if err := m.ldb.Put(common.JoinBytes(patchByte, common.Uint64ToBytes(identifier.Height)), patch.Dump(), nil); err != nil {
+		// redo patch, undo patch and every key of the frontier reach leveldb as one atomic batch
+		batch := new(leveldb.Batch)
+		batch.Put(common.JoinBytes(patchByte, common.Uint64ToBytes(identifier.Height)), patch.Dump())
+		batch.Put(common.JoinBytes(rollbackByte, common.Uint64ToBytes(identifier.Height)), rollbackPatch.Dump())
+		if err := ApplyPatch(newBatchWriter(m.ldb, batch).Subset(frontierByte), patch); err != nil {
 			return err
 		}
-		if err := m.ldb.Put(common.JoinBytes(rollbackByte, common.Uint64ToBytes(identifier.Height)), rollbackPatch.Dump(), nil); err != nil {
-			return err
-		}
-		if err := ApplyPatch(NewLevelDBWrapper(m.ldb).Subset(frontierByte), patch); err != nil {
+		if err := m.ldb.Write(batch, nil); err != nil {
 			return err
 		}
 	}
@@ -378,13 +393,14 @@ func (m *ldbManager) Pop() error {
 	frontierIdentifier := GetFrontierIdentifier(m.Frontier())
 	rollbackPatch := m.getRollback(frontierIdentifier.Height)
 
-	if err := ApplyPatch(NewLevelDBWrapper(m.ldb).Subset(frontierByte), rollbackPatch); err != nil {
+	// the rolled back keys and the removal of the stored patches reach leveldb as one atomic batch
+	batch := new(leveldb.Batch)
+	if err := ApplyPatch(newBatchWriter(m.ldb, batch).Subset(frontierByte), rollbackPatch); err != nil {
 		return err
 	}
-	if err := m.ldb.Delete(common.JoinBytes(patchByte, common.Uint64ToBytes(frontierIdentifier.Height)), nil); err != nil {
-		return err
-	}
-	if err := m.ldb.Delete(common.JoinBytes(rollbackByte, common.Uint64ToBytes(frontierIdentifier.Height)), nil); err != nil {
+	batch.Delete(common.JoinBytes(patchByte, common.Uint64ToBytes(frontierIdentifier.Height)))
+	batch.Delete(common.JoinBytes(rollbackByte, common.Uint64ToBytes(frontierIdentifier.Height)))
+	if err := m.ldb.Write(batch, nil); err != nil {
 		return err
 	}
 
